@@ -40,7 +40,8 @@ def build_from_abstract(apt):
     tr = apt["transforms"]
     variant = {"rank3": True, "caps": "computed" if len(apt["caps"]) else "none",
                "pt_dt": apt["dt"] != "none",
-               "transforms": (False if tr == "none" else (True if tr == "unitary" else "scaled"))}
+               "transforms": {"none": False, "unitary": True, "scaled": "scaled", "in-only": "in-only",
+                              "out-only": "out-only"}[tr]}
     pt = eng.build_pts(case, variant, DT)[0]
     if apt["name"] != "__unnamed__":
         pt.name = apt["name"]
@@ -172,7 +173,9 @@ def pttempo_job(job):
     path2 = path + ".exp.h5"
     try:
         sd = probes.make_probe_sd(probes.probe_weights(5, 20, scale=3e-2), DT)
-        coupling = np.diag([0.5, -0.5]) if diag else 0.5 * SX
+        sy = np.array([[0, -0.5j], [0.5j, 0]])
+        coupling = {True: np.diag([0.5, -0.5]), False: 0.5 * SX, "y": sy,
+                    "generic": 0.3 * SX + 0.4 * sy + 0.2 * np.diag([0.5, -0.5])}[diag]
         bath = oqupy.Bath(coupling, sd)
         params = oqupy.TempoParameters(dt=DT, epsrel=1e-13, dkmax=2)
         mem = oqupy.PtTempo(bath, 0.0, n * DT + DT / 4, params, unique=unique,
@@ -227,7 +230,7 @@ def run(ctx):
             for x in mm:
                 ctx.violation("C16:%s:%s" % (c["itype"], x["what"] + (":" + x["which"] if "which" in x else "")),
                               "%s: %s" % (cid, x), {"case": c})
-        pj = [(diag, unique, n, tmpdir) for diag in (True, False) for unique in (False, True)
+        pj = [(diag, unique, n, tmpdir) for diag in (True, False, "y", "generic") for unique in (False, True)
               for n in ((3,) if quick else (2, 3, 5))]
         for j, mm in zip(pj, core.pmap(pttempo_job, pj)):
             ctx.case({"pttempo": {"diagonal": j[0], "unique": j[1], "N": j[2]}}, nontrivial=True)
